@@ -3,6 +3,8 @@
 package keeper
 
 import (
+	"context"
+
 	sdk "github.com/cosmos/cosmos-sdk/types"
 
 	basketapi "github.com/regen-network/regen-ledger/api/v2/regen/ecocredit/basket/v1"
@@ -15,46 +17,188 @@ import (
 )
 
 // symKeeper builds the real keeper over the model stores with the real constructor.
-func symKeeper() Keeper {
+func symKeeper() (Keeper, []byte) {
 	ss := zz.OrmStore("ecocredit").(api.StateStore)
 	bs := zz.OrmStore("basket").(basketapi.StateStore)
 	ms := zz.OrmStore("marketplace").(marketapi.StateStore)
 	bk := zz.BankKeeper().(ecocredit.BankKeeper)
-	return NewKeeper(ss, bk, zz.ModuleAddr(ecocredit.ModuleName), bs, ms, sdk.AccAddress(zz.NondetBytesAtom("authority")))
+	authority := zz.NondetBytesAtom("authority")
+	return NewKeeper(ss, bk, zz.ModuleAddr(ecocredit.ModuleName), bs, ms, sdk.AccAddress(authority)), authority
 }
 
-type skolems struct {
-	batch uint64
-	acct  []byte
-	denom string
+type stepCtx = zzinv.Step
+
+func runStep(req sdk.Msg, call func(k Keeper, ctx context.Context) error, issued func(b uint64) zz.Q, hook func(s *stepCtx)) {
+	zzinv.Install()
+	k, authority := symKeeper()
+	zzinv.RunStep(authority, req, func(ctx context.Context) error { return call(k, ctx) }, issued, hook)
 }
 
-func pickSkolems() skolems {
-	return skolems{batch: zz.NondetU64("batch*"), acct: zz.NondetBytesAtom("acct*"), denom: zz.NondetAtom("denom*")}
+func sumIssuance(list []*types.BatchIssuance) zz.Q {
+	t := zz.QInt(0)
+	for _, i := range list {
+		t = zz.QAdd(t, zz.QAdd(zz.QParse(i.TradableAmount), zz.QParse(i.RetiredAmount)))
+	}
+	return t
 }
 
-func signerOf(m sdk.Msg) []byte {
-	s := m.GetSigners()
-	return s[0]
-}
+// ---- credit movement
 
 func VerifHarness_Step_Send() {
-	zzinv.Install()
-	k := symKeeper()
 	req := &types.MsgSend{}
-	zz.NondetInto("req", req)
-	zz.Assume(req.ValidateBasic() == nil)
-	sk := pickSkolems()
-	zz.OrmBegin()
-	_, err := k.Send(zz.Context(), req)
-	zz.OrmRollbackIf(err != nil)
-	zzinv.AssumeSums()
-	zzinv.CheckC01(sk.batch)
-	zzinv.CheckC02(sk.batch, zz.QInt(0))
-	zzinv.CheckC04(sk.acct, sk.batch)
-	zz.Assume(zz.Not(zz.BytesEq(sk.acct, signerOf(req))))
-	zzinv.CheckC03(sk.acct, sk.batch, sk.denom)
-	if err == nil {
-		zz.Reach("send succeeds")
-	}
+	runStep(req, func(k Keeper, ctx context.Context) error { _, err := k.Send(ctx, req); return err }, nil, nil)
+}
+
+func VerifHarness_Step_Retire() {
+	req := &types.MsgRetire{}
+	runStep(req, func(k Keeper, ctx context.Context) error { _, err := k.Retire(ctx, req); return err }, nil, nil)
+}
+
+func VerifHarness_Step_Cancel() {
+	req := &types.MsgCancel{}
+	runStep(req, func(k Keeper, ctx context.Context) error { _, err := k.Cancel(ctx, req); return err }, nil, nil)
+}
+
+func VerifHarness_Step_Bridge() {
+	req := &types.MsgBridge{}
+	runStep(req, func(k Keeper, ctx context.Context) error { _, err := k.Bridge(ctx, req); return err }, nil, nil)
+}
+
+// ---- issuance
+
+func VerifHarness_Step_CreateBatch() {
+	req := &types.MsgCreateBatch{}
+	runStep(req, func(k Keeper, ctx context.Context) error { _, err := k.CreateBatch(ctx, req); return err },
+		func(b uint64) zz.Q {
+			// the batch created by this message is the one that exists now and did not before
+			created := zz.And(zz.OrmExists1(zzinv.TBatch, b), zz.Not(zz.OrmExists0(zzinv.TBatch, b)))
+			return zz.QIf(created, sumIssuance(req.Issuance), zz.QInt(0))
+		}, nil)
+}
+
+func VerifHarness_Step_MintBatchCredits() {
+	req := &types.MsgMintBatchCredits{}
+	runStep(req, func(k Keeper, ctx context.Context) error { _, err := k.MintBatchCredits(ctx, req); return err },
+		func(b uint64) zz.Q {
+			var bt api.Batch
+			found := zz.OrmLookup0(zzinv.TBatch, "Denom", &bt, req.BatchDenom)
+			return zz.QIf(zz.And(found, bt.Key == b), sumIssuance(req.Issuance), zz.QInt(0))
+		}, func(s *stepCtx) {
+			if s.Err == nil {
+				var bt api.Batch
+				found := zz.OrmLookup0(zzinv.TBatch, "Denom", &bt, req.BatchDenom)
+				zz.Assert(zz.And(found, zz.And(bt.Open, zz.BytesEq(bt.Issuer, s.Signer))), "C08 mint succeeds only for the batch issuer on an open batch")
+			}
+		})
+}
+
+func VerifHarness_Step_BridgeReceive() {
+	req := &types.MsgBridgeReceive{}
+	runStep(req, func(k Keeper, ctx context.Context) error { _, err := k.BridgeReceive(ctx, req); return err },
+		func(b uint64) zz.Q {
+			// credits land in the batch bound to the contract, or else in the batch created now
+			var c api.Class
+			zz.OrmLookup0(zzinv.TClass, "Id", &c, req.ClassId)
+			var bc api.BatchContract
+			bound := zz.OrmLookup0(zzinv.TBatchContract, "ClassKeyContract", &bc, c.Key, req.OriginTx.Contract)
+			created := zz.And(zz.OrmExists1(zzinv.TBatch, b), zz.Not(zz.OrmExists0(zzinv.TBatch, b)))
+			target := zz.BIf(bound, bc.BatchKey == b, created)
+			return zz.QIf(target, zz.QParse(req.Batch.Amount), zz.QInt(0))
+		}, nil)
+}
+
+func VerifHarness_Step_SealBatch() {
+	req := &types.MsgSealBatch{}
+	runStep(req, func(k Keeper, ctx context.Context) error { _, err := k.SealBatch(ctx, req); return err }, nil,
+		func(s *stepCtx) {
+			if s.Err == nil {
+				var bt api.Batch
+				found := zz.OrmLookup0(zzinv.TBatch, "Denom", &bt, req.BatchDenom)
+				zz.Assert(zz.And(found, zz.BytesEq(bt.Issuer, s.Signer)), "C08 seal succeeds only for the batch issuer")
+			}
+		})
+}
+
+// ---- entity creation and administration
+
+func VerifHarness_Step_CreateClass() {
+	req := &types.MsgCreateClass{}
+	runStep(req, func(k Keeper, ctx context.Context) error { _, err := k.CreateClass(ctx, req); return err }, nil, nil)
+}
+
+func VerifHarness_Step_CreateProject() {
+	req := &types.MsgCreateProject{}
+	runStep(req, func(k Keeper, ctx context.Context) error { _, err := k.CreateProject(ctx, req); return err }, nil, nil)
+}
+
+func VerifHarness_Step_UpdateClassAdmin() {
+	req := &types.MsgUpdateClassAdmin{}
+	runStep(req, func(k Keeper, ctx context.Context) error { _, err := k.UpdateClassAdmin(ctx, req); return err }, nil, nil)
+}
+
+func VerifHarness_Step_UpdateClassIssuers() {
+	req := &types.MsgUpdateClassIssuers{}
+	runStep(req, func(k Keeper, ctx context.Context) error { _, err := k.UpdateClassIssuers(ctx, req); return err }, nil, nil)
+}
+
+func VerifHarness_Step_UpdateClassMetadata() {
+	req := &types.MsgUpdateClassMetadata{}
+	runStep(req, func(k Keeper, ctx context.Context) error { _, err := k.UpdateClassMetadata(ctx, req); return err }, nil, nil)
+}
+
+func VerifHarness_Step_UpdateProjectAdmin() {
+	req := &types.MsgUpdateProjectAdmin{}
+	runStep(req, func(k Keeper, ctx context.Context) error { _, err := k.UpdateProjectAdmin(ctx, req); return err }, nil, nil)
+}
+
+func VerifHarness_Step_UpdateProjectMetadata() {
+	req := &types.MsgUpdateProjectMetadata{}
+	runStep(req, func(k Keeper, ctx context.Context) error { _, err := k.UpdateProjectMetadata(ctx, req); return err }, nil, nil)
+}
+
+func VerifHarness_Step_UpdateBatchMetadata() {
+	req := &types.MsgUpdateBatchMetadata{}
+	runStep(req, func(k Keeper, ctx context.Context) error { _, err := k.UpdateBatchMetadata(ctx, req); return err }, nil, nil)
+}
+
+// ---- governance
+
+func VerifHarness_Step_AddCreditType() {
+	req := &types.MsgAddCreditType{}
+	runStep(req, func(k Keeper, ctx context.Context) error { _, err := k.AddCreditType(ctx, req); return err }, nil, nil)
+}
+
+func VerifHarness_Step_SetClassCreatorAllowlist() {
+	req := &types.MsgSetClassCreatorAllowlist{}
+	runStep(req, func(k Keeper, ctx context.Context) error { _, err := k.SetClassCreatorAllowlist(ctx, req); return err }, nil, nil)
+}
+
+func VerifHarness_Step_AddClassCreator() {
+	req := &types.MsgAddClassCreator{}
+	runStep(req, func(k Keeper, ctx context.Context) error { _, err := k.AddClassCreator(ctx, req); return err }, nil, nil)
+}
+
+func VerifHarness_Step_RemoveClassCreator() {
+	req := &types.MsgRemoveClassCreator{}
+	runStep(req, func(k Keeper, ctx context.Context) error { _, err := k.RemoveClassCreator(ctx, req); return err }, nil, nil)
+}
+
+func VerifHarness_Step_UpdateClassFee() {
+	req := &types.MsgUpdateClassFee{}
+	runStep(req, func(k Keeper, ctx context.Context) error { _, err := k.UpdateClassFee(ctx, req); return err }, nil, nil)
+}
+
+func VerifHarness_Step_AddAllowedBridgeChain() {
+	req := &types.MsgAddAllowedBridgeChain{}
+	runStep(req, func(k Keeper, ctx context.Context) error { _, err := k.AddAllowedBridgeChain(ctx, req); return err }, nil, nil)
+}
+
+func VerifHarness_Step_RemoveAllowedBridgeChain() {
+	req := &types.MsgRemoveAllowedBridgeChain{}
+	runStep(req, func(k Keeper, ctx context.Context) error { _, err := k.RemoveAllowedBridgeChain(ctx, req); return err }, nil, nil)
+}
+
+func VerifHarness_Step_BurnRegen() {
+	req := &types.MsgBurnRegen{}
+	runStep(req, func(k Keeper, ctx context.Context) error { _, err := k.BurnRegen(ctx, req); return err }, nil, nil)
 }
